@@ -149,11 +149,14 @@ func (h *Session) findOrCreateHostWithLock(addr Addr) (host *Host, found bool) {
 	}
 	host.HuntStage = StageNormal
 	host.LastSeen = now
-	host.MACEntry.LastSeen = now
 	h.HostTable.Table[addr.IP] = host
 
 	// link host to macEntry
+	// the host list is iterated under the row lock only (notify, makeOffline): update it under both locks
+	macEntry.Row.Lock()
+	macEntry.LastSeen = now
 	macEntry.HostList = append(macEntry.HostList, host)
+	macEntry.Row.Unlock()
 	return host, false
 }
 
@@ -162,7 +165,9 @@ func (h *Session) deleteHost(ip netip.Addr) {
 		if Logger.IsDebug() {
 			Logger.Msg("delete host").IP("ip", ip).Struct(host).Write()
 		}
+		host.MACEntry.Row.Lock() // the host list is iterated under the row lock only
 		host.MACEntry.unlink(host)
+		host.MACEntry.Row.Unlock()
 		delete(h.HostTable.Table, ip)
 		if len(host.MACEntry.HostList) == 0 { // delete if last host
 			h.MACTable.delete(host.MACEntry.MAC)
